@@ -134,6 +134,18 @@ theorem wheel_has_no_residue (ops : List Op) (hab : (run ops).aborted = false) (
   Verif.Inv.WheelInv.wheel_has_no_residue ops hab hre
 
 open Verif.Loop in
+/-- … so whatever the next poll pops from the wheel reached by any history is due *and* is the current arming of a
+    timer object that exists: a cancelled, fired or replaced arming cannot be what a later expiry comes from … -/
+theorem poll_pops_only_live_due_armings (ops : List Op) (hab : (run ops).aborted = false)
+    (hre : (run ops).reEnabled = false) (now : Int) (fuel : Nat) :
+    ∀ e ∈ (popExpired (run ops).wheel now fuel).1, e.deadline ≤ now ∧
+      ∃ k src, alookup (run ops).srcs k = some src ∧ src.treg = some (e.tok, e.counter) := by
+  intro e he
+  have hmem : e ∈ (run ops).wheel.heap :=
+    (poll_conserves_armings (run ops).wheel now fuel).subset (List.mem_append_left _ he)
+  exact ⟨(Verif.Inv.Wheel.popExpired_spec _ now fuel).1 e he, wheel_has_no_residue ops hab hre e hmem⟩
+
+open Verif.Loop in
 /-- … and no timer object has two entries: the wheel never grows beyond one entry per registered timer. -/
 theorem one_entry_per_timer (ops : List Op) (hab : (run ops).aborted = false) (hre : (run ops).reEnabled = false)
     (i j : Nat) (a b : Entry) (k : Nat) (src : Src)
